@@ -108,11 +108,28 @@ def apply(st, op):
             exp = "2.31" if m else "done"
         else:
             a = alive(entry, now) if entry is not None else False
+            if entry is not None and len(entry) > 2 and entry[2] and a is not False:
+                a = None                      # an earlier grey-zone step could not tell whether the entry had expired
+            ambiguous = False
             if a is None:
-                a = code != "4.08"            # grey zone: follow the implementation
-                if not a:
-                    st.asm.pop(key, None)
-            if not a:
+                misplaced_ = num * size != len(entry[0])
+                if code == "4.08" and misplaced_:
+                    # grey zone and the block does not fit anyway: 4.08 says nothing about expiry; stay undecided
+                    ambiguous = True
+                else:
+                    a = code != "4.08"        # grey zone: follow the implementation
+                    if a and len(entry) > 2:
+                        entry[2] = False
+                    if not a:
+                        st.asm.pop(key, None)
+            if ambiguous:
+                entry[1] = now
+                if len(entry) > 2:
+                    entry[2] = True
+                else:
+                    entry.append(True)
+                exp = "4.08"
+            elif not a:
                 st.asm.pop(key, None)
                 exp = "4.08"
             else:
@@ -282,7 +299,7 @@ def canon(st):
         return (sorted((repr(k), len(v.payload)) for k, v in d._items.items()),
                 None if d._recently_accessed is None else sorted(repr(k) for k in d._recently_accessed))
     k = (td(res_a._block1._assemblies), td(res_b._block1._assemblies), td(res_a._block2._completes),
-         sorted((repr(k), v[0], round(now - v[1], 3)) for k, v in st.asm.items()),
+         sorted((repr(k), v[0], round(now - v[1], 3), tuple(v[2:])) for k, v in st.asm.items()),
          sorted((repr(k), len(v[0]), v[0][:1], round(now - v[1], 3), v[2]) for k, v in st.rend.items()),
          sw.loop.pending_timers(), st.renders[0] if st.rend else 0)
     sw.dispose()
